@@ -215,9 +215,15 @@ class Validator:
             d = rootdict
             key = d["__type__"]
         elif isinstance(path[-1], int):
-            # the error is on an object in a list
             d = dictutils.findkey(rootdict, *path)
-            key = d["__type__"]
+            if isinstance(d, dict):
+                # the error is on an object in a list
+                key = d["__type__"]
+            else:
+                # the error is on an item of a list-valued keyword e.g. SIZE, EXTENT, POINTS
+                idx = max(i for i, p in enumerate(path) if not isinstance(p, int))
+                key = path[idx]
+                d = dictutils.findkey(rootdict, *path[:idx])
         else:
             key = path[-1]
             d = dictutils.findkey(rootdict, *path[:-1])
